@@ -117,12 +117,12 @@ Proof.
 Qed.
 
 (* branch "freeSpace > len(data)" from the point where the packet has the shape q *)
-Lemma finish_short d : HasAdaptationField q = true -> d <> [] -> len body + len d <= 183 ->
+Lemma finish_short d : HasAdaptationField q = true -> len body + len d <= 183 ->
   let q' := AFP.stuffAF (AFP.setLength q (188 - (zlen d + 4 + 1))) in
   payloadStart_m q' = 188 - len d /\
   blit q' (payloadStart_m q') d = H4 ++ (183 - len d) :: body ++ repeatN 255 (183 - len d - len body) ++ d.
 Proof.
-  intros HA ND LD. cbv zeta.
+  intros HA LD. cbv zeta.
   replace (188 - (zlen d + 4 + 1))%Z with (Z.of_N (183 - len d)) by (unfold zlen, len in *; lia).
   rewrite set_len_stuff by lia.
   set (g := 183 - len d - len body).
@@ -168,10 +168,10 @@ Lemma len_body_pos a : 1 <= len (Iso.ser_af_body a).
 Proof. unfold Iso.ser_af_body. rewrite len_cons. lia. Qed.
 
 Lemma set_payload_af h a st pay d : let l := Iso.mkLpkt h (Iso.AF a st) pay in
-  Iso.wf_lpkt l -> Iso.afc h = 3 -> d <> [] ->
+  Iso.wf_lpkt l -> Iso.afc h = 3 ->
   SetPayload_m (Iso.ser_pkt l) d = (Iso.ser_pkt (Iso.set_payload l d), Ok (N.min (len d) (Iso.capacity l))).
 Proof.
-  intros l W A3 ND.
+  intros l W A3.
   pose proof (wf_is_pkt l W) as PK. pose proof (wf_hdr_of l W) as HO. pose proof (wf_len l W) as L188.
   destruct (wf_flags l W) as (AFC & HA & _). cbn [Iso.lh l] in AFC, HA, HO. rewrite A3 in AFC, HA. change (3 / 2 =? 1) with true in HA.
   assert (Iso.laf_ok a) as OK by (destruct W as (_ & _ & AO & _); exact (proj1 AO)).
@@ -208,7 +208,6 @@ Proof.
     destruct (finish_short (Iso.ser_hdr h) (len body + len st) a (st ++ pay) eq_refl OK
                 ltac:(fold body; rewrite len_app; lia) d) as [Q1 Q2].
     + fold body. rewrite <- PE. exact HA.
-    + exact ND.
     + fold body. unfold zlen, len in *. lia.
     + cbv zeta in Q1, Q2. fold body in Q1, Q2. rewrite Q1 in *.
       replace (PacketSize <? 188 - len d) with false by (symmetry; apply N.ltb_ge; unfold PacketSize; lia).
@@ -247,10 +246,10 @@ Lemma laf0_ok : Iso.laf_ok Iso.laf0.
 Proof. unfold Iso.laf_ok, Iso.laf0. cbn. repeat split; try constructor; lia. Qed.
 
 Lemma set_payload_empty_af h pay d : let l := Iso.mkLpkt h Iso.EmptyAF pay in
-  Iso.wf_lpkt l -> Iso.afc h = 3 -> d <> [] ->
+  Iso.wf_lpkt l -> Iso.afc h = 3 ->
   SetPayload_m (Iso.ser_pkt l) d = (Iso.ser_pkt (Iso.set_payload l d), Ok (N.min (len d) (Iso.capacity l))).
 Proof.
-  intros l W A3 ND.
+  intros l W A3.
   pose proof (wf_is_pkt l W) as PK. pose proof (wf_hdr_of l W) as HO. pose proof (wf_len l W) as L188.
   destruct (wf_flags l W) as (AFC & HA & _). cbn [Iso.lh l] in AFC, HA, HO. rewrite A3 in AFC, HA. change (3 / 2 =? 1) with true in HA.
   set (p := Iso.ser_pkt l) in *.
@@ -277,7 +276,6 @@ Proof.
     destruct (finish_short (Iso.ser_hdr h) 0 Iso.laf0 pay' eq_refl laf0_ok
                 ltac:(rewrite body_laf0, len_cons, len_nil; lia) d) as [Q1 Q2].
     + rewrite (has_af_prefix (Iso.ser_hdr h) (0 :: Iso.ser_af_body Iso.laf0 ++ pay') (0 :: x :: pay') eq_refl). rewrite <- PE. exact HA.
-    + exact ND.
     + rewrite body_laf0, len_cons, len_nil. unfold zlen, len in *. lia.
     + cbv zeta in Q1, Q2. rewrite Q1 in *.
       replace (PacketSize <? 188 - len d) with false by (symmetry; apply N.ltb_ge; unfold PacketSize; lia).
@@ -396,4 +394,68 @@ Proof.
       * apply takeN_bytes; exact DB.
       * cbn [Iso.ser_af]. rewrite len_cons, len_app, len_nil, len_takeN. lia.
       * right. split; [exact A3 | apply len_nonempty; rewrite len_takeN; lia].
+Qed.
+
+(* ------------------------------------------------------------------ assembling the cases *)
+Lemma wf_carries_afc3 h f pay : Iso.wf_lpkt (Iso.mkLpkt h f pay) -> carries_payload (Iso.mkLpkt h f pay) ->
+  f <> Iso.NoAF -> Iso.afc h = 3.
+Proof.
+  intros W CP NE. destruct (wf_afc_cases _ W) as [[F _]|[(_ & A & _)|(_ & A & _)]]; cbn [Iso.lf Iso.lh] in *;
+    [congruence | destruct CP as [X|X]; cbn [Iso.lh] in X; congruence | exact A].
+Qed.
+(* proved for: every packet that already has an adaptation field (any length, incl. 0), and
+   payload-only packets when the data fills the packet *)
+Lemma set_payload_ok_partial l d : Iso.wf_lpkt l -> carries_payload l ->
+  (Iso.lf l <> Iso.NoAF \/ 184 <= len d) ->
+  SetPayload_m (Iso.ser_pkt l) d = (Iso.ser_pkt (Iso.set_payload l d), Ok (N.min (len d) (Iso.capacity l))).
+Proof.
+  intros W CP SIDE. destruct l as [h f pay]. destruct f as [| |a st].
+  - destruct SIDE as [X|X]; [cbn in X; congruence|]. exact (set_payload_noaf_fill h pay d W X).
+  - apply set_payload_empty_af; [exact W | apply (wf_carries_afc3 h _ pay W CP); discriminate].
+  - apply set_payload_af; [exact W | apply (wf_carries_afc3 h _ pay W CP); discriminate].
+Qed.
+
+Lemma set_payload_payload l d : Iso.lpayload (Iso.set_payload l d) = takeN (Iso.capacity l) d.
+Proof.
+  unfold Iso.set_payload. destruct (N.ltb_spec (len d) (Iso.capacity l)) as [LT|GE]; cbn [Iso.lpayload]; [|reflexivity].
+  unfold takeN. rewrite firstn_all2; [reflexivity | unfold len in *; lia].
+Qed.
+Lemma set_payload_carries l d : carries_payload l -> carries_payload (Iso.set_payload l d).
+Proof.
+  unfold carries_payload, Iso.set_payload. intros CP.
+  destruct (len d <? Iso.capacity l); cbn [Iso.lh]; [right; reflexivity | exact CP].
+Qed.
+(* reading the payload back (both accessors) returns exactly the stored bytes *)
+Lemma set_payload_readback l d : Iso.wf_lpkt l -> carries_payload l -> d <> [] -> is_bytes d ->
+  let p' := Iso.ser_pkt (Iso.set_payload l d) in
+  Payload_m p' = Ok (takeN (Iso.capacity l) d) /\ Payload_fn p' = Ok (takeN (Iso.capacity l) d).
+Proof.
+  intros W CP ND DB. cbv zeta. pose proof (set_payload_wf l d W CP ND DB) as W'.
+  destruct (partition _ W') as (_ & P & _). destruct (P (set_payload_carries l d CP)) as [P1 P2].
+  rewrite set_payload_payload in P1, P2. auto.
+Qed.
+(* header fields: untouched, except that control 01 becomes 11 when a field has to be created *)
+Lemma set_payload_hdr l d :
+  Iso.lh (Iso.set_payload l d) = (if len d <? Iso.capacity l then Iso.with_afc (Iso.lh l) 3 else Iso.lh l).
+Proof. unfold Iso.set_payload. destruct (len d <? Iso.capacity l); reflexivity. Qed.
+
+(* empty data: count 0, the payload area becomes stuffing *)
+Lemma capacity_pos l : Iso.wf_lpkt l -> carries_payload l -> 1 <= Iso.capacity l.
+Proof.
+  intros W CP. pose proof (wf_len l W) as L188. unfold Iso.ser_pkt in L188. rewrite !len_app, len_ser_hdr in L188.
+  destruct (wf_afc_cases l W) as [[F _]|[(_ & A & _)|(F & A & NP)]].
+  - unfold Iso.capacity. rewrite F. cbn. lia.
+  - destruct CP as [X|X]; congruence.
+  - pose proof (nonempty_len _ NP) as LP. unfold Iso.capacity, Iso.af_content_len.
+    destruct (Iso.lf l) as [| |a st]; [congruence | lia |]. cbn [Iso.ser_af] in L188. rewrite len_cons, len_app in L188. lia.
+Qed.
+Lemma set_payload_empty l : Iso.wf_lpkt l -> carries_payload l -> Iso.lf l <> Iso.NoAF ->
+  SetPayload_m (Iso.ser_pkt l) [] = (Iso.ser_pkt (Iso.set_payload l []), Ok 0) /\
+  Iso.lpayload (Iso.set_payload l []) = [] /\ Iso.afc (Iso.lh (Iso.set_payload l [])) = 3.
+Proof.
+  intros W CP NE. pose proof (capacity_pos l W CP) as C1.
+  rewrite (set_payload_ok_partial l [] W CP (or_introl NE)). rewrite len_nil.
+  replace (N.min 0 (Iso.capacity l)) with 0 by lia. split; [reflexivity|].
+  unfold Iso.set_payload. rewrite len_nil. replace (0 <? Iso.capacity l) with true by (symmetry; apply N.ltb_lt; lia).
+  split; reflexivity.
 Qed.
